@@ -68,7 +68,9 @@ Definition ex_items : list item :=
   [IC (CEq (AHdr [97]) (ATermN false [53] None) (Some (ActAssign [120] (AFun [97; 100; 100] [AHdr [98]; ATermN true [49] (Some [53])]))));
    ICm [99];
    IC (CLeft (AFun [103; 116] [AFun [108; 101; 110; 103; 116; 104] [ATermS [97; 98]]; ATermN false [49] None]) None);
-   IC (CAssign [121] (AEq (AVar [120]) (ARef [103; 46; 118])))].
+   IC (CAssign [121] (AEq (AVar [120]) (ARef [103; 46; 118])));
+   (* regex(#a, /^x\/y+$/) : a regex term with an escaped slash *)
+   IC (CLeft (AFun [114; 101; 103; 101; 120] [AHdr [97]; ATermR [94; 120; 92; 47; 121; 43; 36]]) None)].
 Example C17_hypotheses_met :
   layout_of (spaced (TLB :: toks_items ex_items ++ [TRB])) (TLB :: toks_items ex_items ++ [TRB]) /\ Forall wf_item ex_items.
 Proof.
